@@ -34,8 +34,11 @@ Leq(a, b) == /\ a.n <= b.n /\ a.text <= b.text /\ a.fam <= b.fam /\ a.unk <= b.u
 \* capacities after the warm-up use
 Warm(s) == [raw |-> Size(s), attrs |-> NAttrs(s), ip |-> s.fam, ua |-> s.unk]
 
+\* "foreach": a complete ForEach over a repeated attribute type with a getter inside; "abort_then_decode": a ForEach
+\* whose callback fails on the last attribute, followed by the next Decode into the same Message (a lookup that ends
+\* early must not cost the Message its warm capacities)
 Ops == {"decode", "get", "xor_getfrom", "text_getfrom", "errorcode_getfrom", "unknown_getfrom",
-        "integrity_check", "fingerprint_check", "rebuild"}
+        "integrity_check", "fingerprint_check", "rebuild", "foreach", "abort_then_decode"}
 
 Applicable(op, s) ==
   CASE op = "integrity_check" -> s.mi
@@ -44,7 +47,7 @@ Applicable(op, s) ==
 
 \* does the design have to allocate for op on a message of shape m with capacities c?
 MustAlloc(op, m, c) ==
-  CASE op = "decode" -> Size(m) > c.raw \/ NAttrs(m) > c.attrs
+  CASE op \in {"decode", "abort_then_decode"} -> Size(m) > c.raw \/ NAttrs(m) > c.attrs
     [] op = "xor_getfrom" -> m.fam > c.ip
     [] op = "unknown_getfrom" -> m.unk > c.ua
     [] op = "integrity_check" -> c.raw - Size(m) < 20       \* K1: Sum appends the digest behind Raw
